@@ -225,6 +225,14 @@ theorem group_tables_agree :
       p.1.src ∈ allowed ∧ (groupPhaseOfFn p.1.fn = "any" ∨ groupPhaseOfField p.2.field = "any" ∨ groupPhaseOfFn p.1.fn = groupPhaseOfField p.2.field)) :=
   ⟨group_pairs_classified, group_exceptions_all_occur, xgrp_members_agree, xgrp_every_member_has_meaning, group_source_meanings⟩
 
+open OpmVerif.RstGroup OpmVerif.Gen.RstGroup in
+/-- Group limits the reader keeps in output units (UDA values): the writer's measure is the measure of the dimension
+that converts them later (rates: liquid / gas surface rate, reservoir rate). -/
+theorem group_raw_units_measures :
+    ∀ p ∈ gpairs gwriter greader, gpairCls p = .rawUnits →
+      (groupRawMeasure.lookup p.2.field).isSome ∧ Pre.measure? p.1.rpre = groupRawMeasure.lookup p.2.field :=
+  OpmVerif.RstGroup.group_raw_units_measures
+
 open OpmVerif.RstMsw OpmVerif.Gen.RstMsw in
 /-- Multi-segment wells (second round): the ISEG / RSEG tables regenerated from AggregateMSWData.cpp (stores at
 `<segment base> + item`) and rst/segment.cpp: item names injective, named entries use their enum's item number, and
